@@ -162,15 +162,18 @@ def gen_program(rng, nfn=10, threads=1, classes=None, libcalls=True, stress_regs
         body.append("  " + call_stmt(fns[r], "seed + %du" % (r * 13 + 1), "r%d" % r))
     body += ["  return (void *)(uintptr_t)dg;", "}"]
     out.append("\n".join(body))
-    main = ["int main(void)", "{", "  uint64_t total = 0; int i;"]
+    main = ["int main(void)", "{", "  uint64_t total = 0; int i; char rep[1024]; size_t rn = 0; FILE *of;"]
     if threads > 1:
         main += ["  pthread_t th[%d];" % threads,
                  "  for (i = 0; i < %d; i++) pthread_create(&th[i], NULL, root, (void *)(uintptr_t)(i + 1));" % threads,
                  "  for (i = 0; i < %d; i++) { void *r; pthread_join(th[i], &r); total = total * 31u + (uint64_t)(uintptr_t)r; "
-                 "printf(\"DIGEST t%%d %%016llx\\n\", i, (unsigned long long)(uintptr_t)r); }" % threads]
+                 "rn += (size_t)snprintf(rep + rn, sizeof rep - rn, \"DIGEST t%%d %%016llx\\n\", i, (unsigned long long)(uintptr_t)r); }" % threads]
     main += ["  total = total * 31u + (uint64_t)(uintptr_t)root((void *)(uintptr_t)99);",
-             "  printf(\"DIGEST main %016llx\\n\", (unsigned long long)total);",
+             "  rn += (size_t)snprintf(rep + rn, sizeof rep - rn, \"DIGEST main %016llx\\n\", (unsigned long long)total);",
+             "  fputs(rep, stdout);",
              "  fflush(stdout);",
+             "  /* the same report into a private file: stdout is shared with the tracer's own messages */",
+             "  if (getenv(\"VERIF_OUT\") && (of = fopen(getenv(\"VERIF_OUT\"), \"w\")) != NULL) { fputs(rep, of); fclose(of); }",
              "  return (int)(total % 120u);", "}"]
     out.append("\n".join(main))
     desc = {"nfn": nfn, "threads": threads,
